@@ -287,6 +287,9 @@ func ctxName(ctx string) string {
 	if ctx == "halt-compiler-head" {
 		return "between __halt_compiler and its ';'"
 	}
+	if ctx == "after-heredoc-label" {
+		return "after the ';' that follows a heredoc label"
+	}
 	return "between ordinary tokens"
 }
 
@@ -309,7 +312,7 @@ func H_C10() {
 	}
 	eq, diff := TreeEq(a.Root, b.Root, CmpTokens|CmpFreeFloat|CmpPositions)
 	if diff != "" {
-		Fail("C10:same-tree-under-5-and-7", diff)
+		Fail("C10:same-tree-under-5-and-7", shortDiffC(diff))
 	} else {
 		Assert("C10:same-tree-under-5-and-7", eq)
 	}
@@ -356,4 +359,26 @@ func notSharedSyntax(toks []*token.Token) string {
 		}
 	}
 	return ""
+}
+
+// shortDiffC keeps the last two path segments of a tree difference (parent slot and
+// node), so that the same deviation is one signature wherever the construct stands.
+func shortDiffC(d string) string {
+	colon := len(d)
+	for i := 0; i < len(d); i++ {
+		if d[i] == ':' {
+			colon = i
+			break
+		}
+	}
+	var slashes []int
+	for i := 0; i < colon; i++ {
+		if d[i] == '/' {
+			slashes = append(slashes, i)
+		}
+	}
+	if len(slashes) < 2 {
+		return d
+	}
+	return d[slashes[len(slashes)-2]+1:]
 }
